@@ -579,5 +579,159 @@ theorem retries_bounded' (c : Cfg) (evs : List Ev) (hr : 1 ≤ c.requestRetries)
     rw [run_snoc, step_eq]
     exact (R_stepM hr e).out (run c evs, []) ih
 
+/-! ## Walk P: a queued request always has a releaser -/
+
+/-- Address `k` has a releaser: an active challenge, or no session and an initiating call. -/
+def Rel (s : HState) (k : NA) : Prop :=
+  s.challenges.any (·.1 == k) = true ∨
+    (s.sessions.all (·.1 != k) = true ∧
+      s.active.any (fun call => call.contact.na == k && call.initiating) = true)
+
+/-- `PendingHasReleaser` except for the addresses in `ex`. -/
+def PX (ex : NA → Prop) (st : St) : Prop :=
+  ∀ e ∈ st.1.pending, ¬ ex e.1 → e.2 ≠ [] → Rel st.1 e.1
+
+theorem PX_iff (s : HState) (os : List Out) : PX (fun _ => False) (s, os) ↔ PendingHasReleaser s := by
+  unfold PX PendingHasReleaser Rel
+  constructor
+  · intro h e he hne; exact h e he (fun h => h) hne
+  · intro h e he _ hne; exact h e he hne
+
+theorem Rel.mono {s s' : HState} {k : NA}
+    (hc : s.challenges.any (·.1 == k) = true → s'.challenges.any (·.1 == k) = true)
+    (hs : s.sessions.all (·.1 != k) = true → s'.sessions.all (·.1 != k) = true)
+    (ha : s.active.any (fun call => call.contact.na == k && call.initiating) = true →
+      s'.active.any (fun call => call.contact.na == k && call.initiating) = true)
+    (h : Rel s k) : Rel s' k := by
+  rcases h with h | ⟨h1, h2⟩
+  · exact Or.inl (hc h)
+  · exact Or.inr ⟨hs h1, ha h2⟩
+
+/-- Pending untouched, releasers kept for the non-exempt addresses. -/
+theorem PX.step {ex : NA → Prop} {st st' : St} (h : PX ex st) (hp : st'.1.pending = st.1.pending)
+    (hr : ∀ k, ¬ ex k → Rel st.1 k → Rel st'.1 k) : PX ex st' := by
+  intro e he hx hne
+  rw [hp] at he
+  exact hr _ hx (h e he hx hne)
+
+theorem PX.weaken {ex ex' : NA → Prop} {st : St} (h : PX ex st) (hx : ∀ k, ex k → ex' k) : PX ex' st :=
+  fun e he hn hne => h e he (fun h => hn (hx _ h)) hne
+
+/-- Generic leaf: a `modS` that leaves `pending` alone and keeps releasers. -/
+theorem P_modS {ex : NA → Prop} (f : HState → HState) (hp : ∀ s, (f s).pending = s.pending)
+    (hr : ∀ s k, ¬ ex k → Rel s k → Rel (f s) k) : Ho (PX ex) (modS f) (fun _ => PX ex) :=
+  Ho.modS _ (fun st h => h.step (hp st.1) (hr st.1))
+
+theorem P_frame {α} {ex : NA → Prop} {m : M α}
+    (h : ∀ st, (m.run st).2.1.pending = st.1.pending ∧ (m.run st).2.1.challenges = st.1.challenges ∧
+      (m.run st).2.1.sessions = st.1.sessions ∧ (m.run st).2.1.active = st.1.active) :
+    Ho (PX ex) m (fun _ => PX ex) :=
+  ⟨fun st hp => hp.step (h st).1 (fun k _ hr => by
+    obtain ⟨_, h2, h3, h4⟩ := h st
+    unfold Rel; rw [h2, h3, h4]; exact hr)⟩
+
+theorem P_emit {ex} (o) : Ho (PX ex) (emit o) (fun _ => PX ex) := P_frame (fun _ => ⟨rfl, rfl, rfl, rfl⟩)
+theorem P_send {ex} (na p) : Ho (PX ex) (send na p) (fun _ => PX ex) := P_frame (fun _ => ⟨rfl, rfl, rfl, rfl⟩)
+theorem P_freshNonce {ex} (c : Cfg) : Ho (PX ex) (freshNonce c) (fun _ => PX ex) := P_frame (fun _ => ⟨rfl, rfl, rfl, rfl⟩)
+theorem P_freshCd {ex} (c : Cfg) : Ho (PX ex) (freshCd c) (fun _ => PX ex) := P_frame (fun _ => ⟨rfl, rfl, rfl, rfl⟩)
+theorem P_freshEph {ex} (c : Cfg) : Ho (PX ex) (freshEph c) (fun _ => PX ex) := P_frame (fun _ => ⟨rfl, rfl, rfl, rfl⟩)
+theorem P_freshRid {ex} (c : Cfg) : Ho (PX ex) (freshRid c) (fun _ => PX ex) := P_frame (fun _ => ⟨rfl, rfl, rfl, rfl⟩)
+theorem P_encryptMessage {ex} (c : Cfg) (s m) : Ho (PX ex) (encryptMessage c s m) (fun _ => PX ex) :=
+  P_frame (fun _ => ⟨rfl, rfl, rfl, rfl⟩)
+theorem P_addExpected {ex} (a) : Ho (PX ex) (addExpected a) (fun _ => PX ex) :=
+  P_frame (fun st => by
+    show ((addExpected a).run st).2.1.pending = _ ∧ _
+    simp only [addExpected, run_modS]
+    by_cases h : st.1.exempt.any (·.1 == a) <;> simp [h])
+theorem P_removeExpected {ex} (a) : Ho (PX ex) (removeExpected a) (fun _ => PX ex) :=
+  P_frame (fun _ => ⟨rfl, rfl, rfl, rfl⟩)
+
+/-! session operations: the key set only shrinks -/
+theorem all_ne_of_sublist {l l' : List (NA × Session × Nat)} {k : NA}
+    (h : ∀ x ∈ l', ∃ y ∈ l, y.1 = x.1) (ha : l.all (·.1 != k) = true) : l'.all (·.1 != k) = true := by
+  rw [List.all_eq_true] at ha ⊢
+  intro x hx
+  obtain ⟨y, hy, hxy⟩ := h x hx
+  rw [← hxy]; exact ha y hy
+
+theorem PX.sess {ex : NA → Prop} {st : St} (h : PX ex st) (ss : List (NA × Session × Nat))
+    (hk : ∀ x ∈ ss, ∃ y ∈ st.1.sessions, y.1 = x.1) : PX ex ({ st.1 with sessions := ss }, st.2) := by
+  refine h.step rfl (fun k _ hr => ?_)
+  refine Rel.mono ?_ ?_ ?_ hr
+  · exact id
+  · exact all_ne_of_sublist hk
+  · exact id
+
+theorem P_sessPut {ex} (na sess) : Ho (PX ex) (sessPut na sess) (fun _ => PX ex) :=
+  Ho.modS _ (fun st h => h.sess _ (fun x hx => by
+    simp only [List.mem_map] at hx
+    obtain ⟨y, hy, rfl⟩ := hx
+    refine ⟨y, hy, ?_⟩
+    by_cases hyk : y.1 == na
+    · simp only [hyk, if_true]; exact (beq_iff_eq.1 hyk)
+    · simp only [hyk]; rfl))
+theorem P_sessRemove {ex} (na) : Ho (PX ex) (sessRemove na) (fun _ => PX ex) :=
+  Ho.modS _ (fun st h => h.sess _ (fun x hx => ⟨x, (List.mem_filter.1 hx).1, rfl⟩))
+
+def HasSess (na : NA) (st : St) : Prop := st.1.sessions.any (·.1 == na) = true
+
+theorem P_sessGetMut {ex} (c : Cfg) (na) : Ho (PX ex) (sessGetMut c na)
+    (fun r st => PX ex st ∧ (r = none → st.1.sessions.all (·.1 != na) = true) ∧ (r ≠ none → HasSess na st)) := by
+  refine sessGetMut_elim (fun st hp => ⟨fun hf => ⟨hp, fun _ => ?_, fun h => absurd rfl h⟩, fun k sess stamp hf => ⟨fun _ => ⟨?_, fun _ => ?_, fun h => absurd rfl h⟩, fun _ => ⟨?_, fun h => (nomatch h), fun _ => ?_⟩⟩⟩)
+  · rw [List.find?_eq_none] at hf
+    rw [List.all_eq_true]; intro x hx
+    have := hf x hx
+    simpa using this
+  · exact hp.sess _ (fun x hx => ⟨x, (List.mem_filter.1 hx).1, rfl⟩)
+  · simp [List.all_filter]
+  · refine hp.sess _ (fun x hx => ?_)
+    simp only [List.mem_append, List.mem_singleton] at hx
+    rcases hx with hx | hx
+    · exact ⟨x, (List.mem_filter.1 hx).1, rfl⟩
+    · subst hx
+      have hm := List.mem_of_find?_eq_some hf
+      have hk := List.find?_some hf
+      exact ⟨_, hm, by simpa using hk⟩
+  · simp [HasSess]
+
+theorem popExpired_suffix (ttl rt : Nat) (l : List (NA × Session × Nat)) :
+    ∀ x ∈ (popExpired ttl rt l).2, x ∈ l := by
+  induction l with
+  | nil => intro x hx; simp [popExpired] at hx
+  | cons a as ih =>
+    obtain ⟨na, sess, stamp⟩ := a
+    intro x hx
+    unfold popExpired at hx
+    by_cases h : stamp + ttl ≥ rt
+    · simp only [h, if_true] at hx; exact hx
+    · simp only [h, if_false] at hx; exact List.mem_cons_of_mem _ (ih x hx)
+
+theorem P_removeExpiredSessions {ex} (c : Cfg) : Ho (PX ex) (removeExpiredSessions c) (fun _ => PX ex) :=
+  removeExpiredSessions_elim (fun st hp e r her => by
+    have hs : PX ex ({ st.1 with sessions := r }, st.2) :=
+      hp.sess _ (fun x hx => ⟨x, by have := popExpired_suffix c.sessionTtl st.1.rt st.1.sessions x; rw [her] at this; exact this hx, rfl⟩)
+    by_cases he : e.isEmpty
+    · simp only [he, if_true]; exact hs
+    · simp only [he]; exact hs)
+
+theorem P_sessInsert {ex : NA → Prop} (c : Cfg) (na sess) (hx : ex na) :
+    Ho (PX ex) (sessInsert c na sess) (fun _ => PX ex) :=
+  Ho.modS _ (fun st h => h.step rfl (fun k hk hr => by
+    refine Rel.mono ?_ ?_ ?_ hr
+    · exact id
+    · intro ha
+      have hkn : k ≠ na := fun h => hk (h ▸ hx)
+      have h1 : (st.1.sessions.filter (·.1 != na) ++ [(na, sess, st.1.rt)]).all (·.1 != k) = true := by
+        rw [List.all_append]
+        simp only [Bool.and_eq_true]
+        refine ⟨all_ne_of_sublist (fun x hx => ⟨x, (List.mem_filter.1 hx).1, rfl⟩) ha, ?_⟩
+        simp [Ne.symm hkn]
+      show (if _ then _ else _ : List _).all _ = true
+      split
+      · exact all_ne_of_sublist (fun x hx => ⟨x, List.mem_of_mem_drop hx, rfl⟩) h1
+      · exact h1
+    · exact id))
+
+
 end Discv5.H
 
